@@ -216,6 +216,11 @@ def run(ctx):
         check_case(ctx, {"conf": conf, "src": src})
         if kind != "lines":
             ctx.sample({"conf": conf, "src": src[:200]}, every=1999)
+    from vf import limits
+    for i, (name, src) in enumerate(limits.docs(big=True)):
+        if ctx.mine(i):
+            ctx.count("wl.limits")
+            check_case(ctx, {"conf": W.PANEL[1] if len(src) > 100000 else rng.choice([W.PANEL[1], W.PANEL[2]]), "src": src}, minimize=False)
     # container / blank-line / EOF combinations: lists ending in blank lines, lazy lines, definitions in containers, tables in quotes
     pre = ["", "> ", "- ", "  ", "1. ", "> - ", "- > ", ">", "   ", "    ", "\t", "> > "]
     body = ["a", "", "b", "[r]: /u", "[r]: /u 't'", "'t'", "|a|b|", "|-|-|", "|c|d|", "```", "~~~", "    c", "# h", "===", "---", "<div>",
